@@ -159,6 +159,7 @@ def evaluate(d, base, meta, rk, ck):
     names = [m['name'] for m in meta]
     D = len(meta)
     key = realise(rk) if ck[0] == 'absent' else (realise(rk), realise(ck))
+    key_before = repr(key)
     # ---- reference
     exp_err = None
     exp = None
@@ -181,6 +182,9 @@ def evaluate(d, base, meta, rk, ck):
     got = call(d.__getitem__, key)
     other = ck[0] in OTHER_COLS or rk[0] == 'none'
     desc = 'key (%r, %r) on shape %r' % (rk, ck, base.shape)
+    if repr(key) != key_before:
+        # the key belongs to the caller (who may use it again on another sample)
+        return 'value', ('key_intact', '%s: indexing rewrote the key it was given: %s -> %r' % (desc, key_before, key))
     if exp_err is not None:
         if raised(got):
             return 'raise', None
@@ -241,7 +245,7 @@ def row_keys(N):
 
 def col_keys(D, names):
     out = [('absent',)] + [('int', i) for i in range(-D - 1, D + 1)]
-    out += [('name', n) for n in names] + [('name', 'zz'), ('name', 'Ch0')]
+    out += [('name', n) for n in names] + [('name', 'zz'), ('name', 'Ch0'), ('name', 'lab0')]   # a label is no name
     vals = [None] + list(range(-D - 1, D + 2))
     for a in vals:
         for b in vals:
@@ -258,7 +262,8 @@ def col_keys(D, names):
         out.append(('blist', list(t)))
         out.append(('npbool', list(t)))
     out += [('blist', [True] * (D + 1)), ('npint', 0), ('npint', -1), ('nparr', [0]), ('nparr', [D - 1, 0]),
-            ('list', [0, D]), ('list', ['zz']), ('list', [names[0], 'zz']), ('none',)]
+            ('list', [0, D]), ('list', ['zz']), ('list', [names[0], 'zz']), ('list', [names[0], 'lab0']),
+            ('tuple', ['lab%d' % (D - 1), 0]), ('none',)]
     return out
 
 
@@ -349,7 +354,7 @@ def _colkey(draw, D, names, keep2d=False):
     if kind == 'name':
         return ['name', draw(st.sampled_from(names))]
     if kind == 'badname':
-        return draw(st.sampled_from([['name', 'zz'], ['name', 'Ch0'], ['list', [names[0], 'cH0']], ['list', [names[0], 'zz']], ['list', [0, D]], ['list', [-D - 1]]]))
+        return draw(st.sampled_from([['name', 'zz'], ['name', 'Ch0'], ['name', 'lab0'], ['list', [0, 'lab%d' % (D - 1)]], ['list', [names[0], 'cH0']], ['list', [names[0], 'zz']], ['list', [0, D]], ['list', [-D - 1]]]))
     if kind == 'slice':
         v = st.one_of(st.none(), st.integers(-D - 2, D + 2))
         return ['slice', [draw(v), draw(v), draw(st.sampled_from([None, 1, -1, 2]))]]
@@ -453,9 +458,11 @@ def _check_assign(obs, d, base, meta, rk, ck, how):
         val = 9999
     d2 = d.copy()
     before_meta = meta_of(d2)
+    key_before = repr(key)
     r = call(d2.__setitem__, key, val)
     other = ck[0] in OTHER_COLS or rk[0] == 'none'
     desc = 'assignment through (%r, %r) on shape %r' % (rk, ck, base.shape)
+    obs.claim('key_intact', repr(key) == key_before, lambda: '%s: assignment rewrote the key: %s -> %r' % (desc, key_before, key))
     if exp_err is not None:
         if other and not raised(r):
             obs.exclude('assign_other_form_accepted')
